@@ -201,7 +201,9 @@ def ns_hetero(which):
                          "jinns.loss._DynamicLossAbstract:DynamicLoss._eval_heterogeneous_parameters"])
 
 
-def fisher_hetero():
+def fisher_hetero(int_declared=False):
+    """int_declared: the caller's own entry of the heterogeneous key is an integer placeholder; the equation still uses
+    the (real) value of the map at the point"""
     def build():
         net = Net("Nf", "nonstatio_PDE", 2, 1)
         H = Opaque("hF", 3, 1)
@@ -215,15 +217,15 @@ def fisher_hetero():
             rr = P.app("hF", 0, (), pt + [r[()]]) if not wrong else r[()]
             return arr(lambda _: n(0, pt, (0,)) + Tmax[()] * (-D[()] * n(0, pt, (1, 1)) - n(0, pt) * (rr - g[()] * n(0, pt))), (1,))
         return dict(fn=fn, spec=spec, canary=lambda *a: spec(*a, wrong=True),
-                    inputs=[Inp("t", (1,)), Inp("x", (1,)), Inp("th", (1,)), Inp("D", ()), Inp("r", ()), Inp("g", ()),
+                    inputs=[Inp("t", (1,)), Inp("x", (1,)), Inp("th", (1,)), Inp("D", ()), Inp("r", (), "int" if int_declared else "real"), Inp("g", ()),
                             Inp("Tmax", (), "pos")])
-    return EqObligation("C02/FisherKPP.evaluate/ensures.heterogeneous[r]", build,
+    return EqObligation("C02/FisherKPP.evaluate/ensures.heterogeneous[r" + (",integer_typed_declared_entry" if int_declared else "") + "]", build,
                         [DLMOD + ":FisherKPP.equation", "jinns.loss._DynamicLossAbstract:_decorator_heteregeneous_params.wrapper_pde_non_statio",
                          "jinns.loss._DynamicLossAbstract:DynamicLoss._eval_heterogeneous_parameters"] + ABS)
 
 
 def obligations(tier):
-    obs = [burgers(), ou(), ns_hetero("nu"), ns_hetero("rho"), fisher_hetero()]
+    obs = [burgers(), ou(), ns_hetero("nu"), ns_hetero("rho"), fisher_hetero(), fisher_hetero(int_declared=True)]
     # the separable-network (forward-mode) branches of the built-in equations: the C11 contract, reported under C02
     from contracts import c11
     for (r_, B) in ([(1, 2), (2, 1)] if tier == "quick" else [(1, 1), (1, 2), (2, 1), (2, 2)]):
